@@ -3,15 +3,26 @@
 For every basis TLC decides (machine C16_Simples) whether a special family has arbitrarily long members in the
 class (explicit families) and counts the simples of each length by enumeration; the pin-sequence part is decided by
 TLC on the exported automaton (machine C15_PinLanguage).  The verdict of the real code, through every entry point,
-for every order, for non-minimal presentations and for all eight symmetric images, is judged against these.
+for every order, for non-minimal presentations and for all eight symmetric images, is judged against these - also in other
+containers and argument forms, for the same objects asked twice, before / after enumeration and clear_cache, and with the
+three entry points called one after the other in every order (from the state of a fresh process, and in cold processes).
 """
+import concurrent.futures
 import contextlib
 import io
 import itertools
 import json
+import multiprocessing
+import os
+import random
+import subprocess
+import sys
+import tempfile
+import time
 
-from permuta import Av, Perm
+from permuta import Av, Basis, Perm
 from permuta import cli
+from permuta import permutils
 from permuta.enumeration_strategies.finitely_many_simples import FinitelyManySimplesStrategy
 from permuta.permutils.pin_words import PinWords
 
@@ -39,6 +50,12 @@ def bases(rnd, quick):
     if not quick:
         for _ in range(10):
             out.append(sorted({rnd.choice(s[5]), rnd.choice(s[4]), rnd.choice(s[3])}))
+        # more elements of length 5: alone, in pairs, simple ones, next to the bases of the special families
+        out += [[p] for p in rnd.sample(s[5], 4)] + [[(1, 3, 0, 4, 2)], [(2, 0, 4, 1, 3), (1, 4, 2, 0, 3)], [(0, 1, 2, 3, 4)]]
+        for _ in range(6):
+            out.append(sorted({rnd.choice(s[5]), rnd.choice(s[5])}))
+        for _ in range(4):
+            out.append(sorted({rnd.choice(s[5]), rnd.choice([(1, 3, 0, 2), (2, 0, 3, 1), (2, 3, 0, 1), (0, 1, 2)])}))
     res = []
     for b in out:
         b = [p for p in b if not any(q != p and contains(p, q) for q in b)]
@@ -52,7 +69,7 @@ def pin_verdict_jobs(basis):
     fresh = PinWords.make_dfa_for_basis(list(B))
     defs = {"BasisDef": "{" + ", ".join(tlc.tla(list(p)) for p in basis) + "}"}
     defs.update(c15.tla_table("A", c15.export(fresh)))
-    defs.update(c15.tla_table("B", c15.export(fresh)))
+    defs.update(c15.tla_tables("B", []))
     mod = util.mc_module("MC_C15", "C15_PinLanguage", defs)
     consts = {"Basis": ("<-", "BasisDef"), "MaxWord": 6, "Mode": '"semantic"',
               "DfaN": ("<-", "ANDef"), "DfaDelta": ("<-", "ADeltaDef"), "DfaFinal": ("<-", "AFinalDef"), "DfaInit": ("<-", "AInitDef"),
@@ -74,6 +91,182 @@ def cli_simple(text):
     return None
 
 
+def text_of(seq, one_based=False, sep="_"):
+    return sep.join("".join(str(v + (1 if one_based else 0)) for v in p) for p in seq)
+
+
+REAL_SYM = (("rotate", lambda p: p.rotate(1)), ("reverse", lambda p: p.reverse()), ("complement", lambda p: p.complement()),
+            ("inverse", lambda p: p.inverse()), ("rotate(2)", lambda p: p.rotate(2)), ("rotate(3)", lambda p: p.rotate(3)),
+            ("flip_antidiagonal", lambda p: p.flip_antidiagonal()))
+ENTRY = {"Av": lambda X, t: Av(list(X)).has_finitely_many_simples(),
+         "Strategy": lambda X, t: FinitelyManySimplesStrategy(list(X)).applies(),
+         "cli": lambda X, t: cli_simple(t),
+         "utility": lambda X, t: PinWords.has_finite_simples(list(X))}
+ORDERS = list(itertools.permutations(("Av", "Strategy", "cli")))
+
+
+def as_fresh_process():
+    """Process-wide state the entry points may share, put back to what a fresh process has (as far as it is visible)."""
+    Av.clear_cache()
+    for owner in ("PolyPerms", "InsertionEncodablePerms"):
+        t = getattr(getattr(permutils, owner, None), "_CACHE", None)
+        if isinstance(t, dict):
+            t.clear()
+
+
+COLD = r"""
+import contextlib, io, json, sys
+from permuta import Av, Perm, cli
+from permuta.enumeration_strategies.finitely_many_simples import FinitelyManySimplesStrategy
+from permuta.permutils.pin_words import PinWords
+basis = [Perm(p) for p in json.loads(sys.argv[1])]
+text = sys.argv[2]
+def cli_simple():
+    buf = io.StringIO()
+    with contextlib.redirect_stdout(buf):
+        args = cli.get_parser().parse_args(["simple", text])
+        args.func(args)
+    out = buf.getvalue()
+    return False if "infinitely many" in out else True if "finitely many" in out else None
+entry = {"Av": lambda: Av(list(basis)).has_finitely_many_simples(), "Strategy": lambda: FinitelyManySimplesStrategy(list(basis)).applies(),
+         "cli": cli_simple, "utility": lambda: PinWords.has_finite_simples(list(basis))}
+out = []
+for name in json.loads(sys.argv[3]):
+    try:
+        out.append([name, "ok", entry[name]()])
+    except Exception as e:
+        out.append([name, "raise", type(e).__name__])
+print(json.dumps(out))
+"""
+
+
+def cold_sessions(b):
+    """One cold process per order of the three entry points (then the utility function): [(order, Popen)]."""
+    out = []
+    for order in ORDERS:
+        argv = [sys.executable, "-c", COLD, json.dumps([list(p) for p in b]), text_of(b), json.dumps(list(order) + ["utility"])]
+        out.append((order, subprocess.Popen(argv, stdout=subprocess.PIPE, stderr=subprocess.PIPE, text=True)))
+    return out
+
+
+def supersets(rnd, b):
+    """Permutations containing an element of b (checked with the harness's own containment): non-minimal presentations."""
+    out = []
+    for which in (0, len(b) - 1):
+        base = b[which]
+        cands = [c for c in util.perms_of(len(base) + 1) if contains(c, base) and c not in b]
+        if cands:
+            out.append(rnd.choice(cands))
+    base = rnd.choice(b)
+    for _ in range(20):
+        c = util.rand_perm(rnd, len(base) + 2)
+        if contains(c, base) and c not in out:
+            out.append(c)
+            break
+    return out
+
+
+def ask_all(ctx, rnd, b, bi, tier_quick, maxn, sup):
+    """Every question about one basis; answers are recorded as (entry, status, answer, flags) and judged later against
+    TLC's verdicts (the TLC runs are under way meanwhile)."""
+    B = [Perm(p) for p in b]
+    t0 = text_of(b)
+    Q = []
+    # (bases whose automaton is expensive to build get shorter lists of questions: in the thorough tier those with an
+    # element of length 5 are asked the quick tier's list, in the quick tier the larger ones its lean form)
+    quick = tier_quick or any(len(p) >= 5 for p in b)
+    lean = tier_quick and (len(b) >= 3 or sum(len(p) >= 4 for p in b) >= 2)
+
+    def ask(name, thunk, **flags):
+        st, got = util.call(thunk)
+        Q.append((name, st, got, flags))
+    ask("PinWords.has_finite_simples", lambda: PinWords.has_finite_simples(list(B)))
+    ask("has_finite_simples(reversed order)", lambda: PinWords.has_finite_simples(list(reversed(B))))
+    if not lean:
+        ask("has_finite_simples(check_all)", lambda: PinWords.has_finite_simples(list(B), check_all=True))
+    ask("Av.has_finitely_many_simples", lambda: Av(list(B)).has_finitely_many_simples())
+    ask("FinitelyManySimplesStrategy", lambda: FinitelyManySimplesStrategy(B).applies())
+    ask("cli simple", lambda: cli_simple(t0))
+    # non-minimal presentations of the same class, in several ways
+    pres = []
+    if sup:
+        g = [Perm(x) for x in sup]
+        pres = [("has_finite_simples(non-minimal basis)", lambda: PinWords.has_finite_simples(list(B) + [g[0]])),
+                ("Strategy(non-minimal basis)", lambda: FinitelyManySimplesStrategy(list(B) + [g[0]]).applies()),
+                ("has_finite_simples(non-minimal: redundant element first)", lambda: PinWords.has_finite_simples([g[-1]] + list(B))),
+                ("has_finite_simples(non-minimal: several redundant elements)", lambda: PinWords.has_finite_simples(g[:1] + list(B) + g[1:])),
+                ("has_finite_simples(non-minimal, check_all)", lambda: PinWords.has_finite_simples(g + list(B), check_all=True)),
+                ("Av(non-minimal basis)", lambda: Av(list(B) + g).has_finitely_many_simples()),
+                ("Strategy(non-minimal: redundant first, an element twice)", lambda: FinitelyManySimplesStrategy(g[-1:] + list(B) + B[:1]).applies()),
+                ("cli simple(non-minimal basis)", lambda: cli_simple(text_of(list(b) + sup))),
+                ("has_finite_simples(an element twice)", lambda: PinWords.has_finite_simples(list(B) + B[:1]))]
+        keep = pres[:1 if lean else 2] + ([pres[2 + bi % (len(pres) - 2)]] if quick else pres[2:])
+        for name, th in keep:
+            ask(name, th)
+    # symmetric images, computed by the real code (checked below to be images the specification lists)
+    for name, f in (REAL_SYM[bi % 7:] + REAL_SYM[:bi % 7])[:1 if lean else 3 if quick else 7]:
+        img = [f(p) for p in B]
+        ask("has_finite_simples(symmetric image: %s)" % name, lambda: PinWords.has_finite_simples(list(img)), image=frozenset(tuple(p) for p in img))
+    # the basis in other containers / argument forms
+    forms = [("has_finite_simples(frozenset)", lambda: PinWords.has_finite_simples(frozenset(B))),
+             ("has_finite_simples(Basis object)", lambda: PinWords.has_finite_simples(Basis(*B))),
+             ("has_finite_simples(tuple, use_db=False, check_all=False)", lambda: PinWords.has_finite_simples(tuple(B), False, False)),
+             ("Strategy(generator)", lambda: FinitelyManySimplesStrategy(p for p in B).applies()),
+             ("Strategy(Basis object)", lambda: FinitelyManySimplesStrategy(Basis(*B)).applies()),
+             ("Av(generator)", lambda: Av(p for p in reversed(B)).has_finitely_many_simples()),
+             ("Av(set)", lambda: Av(set(B)).has_finitely_many_simples()),
+             ("Av.from_string(1-based text)", lambda: Av.from_string(text_of(b, one_based=True)).has_finitely_many_simples()),
+             ("cli simple(1-based text, reversed)", lambda: cli_simple(text_of(list(reversed(b)), one_based=True, sep=":"))),
+             ("has_finite_simples(set)", lambda: PinWords.has_finite_simples(set(B)))]
+    if all(len(p) <= 4 for p in b):
+        forms.append(("has_finite_simples(use_db=True)", lambda: PinWords.has_finite_simples(list(B), use_db=True)))
+    for name, th in ([forms[(2 * bi + j) % len(forms)] for j in range(1 if lean else 2)] if quick else forms):
+        ask(name, th)
+    # a one-shot generator handed to the utility function: the property does not quantify over container kinds
+    ask("has_finite_simples(one-shot generator)", lambda: PinWords.has_finite_simples(p for p in B), drift_only=True)
+    # the same objects asked twice
+    strat, cls = FinitelyManySimplesStrategy(B), Av(list(B))
+    ask("Strategy object, first time", strat.applies)
+    ask("Av object, first time", cls.has_finitely_many_simples)
+    ask("Strategy object, asked again", strat.applies)
+    ask("Av object, asked again", cls.has_finitely_many_simples)
+    # the same questions again after the class has been enumerated in this process (levels cached on the shared
+    # class object), and on a class object created after clear_cache: the verdict depends only on the class
+
+    def after_enumeration():
+        Av(list(B)).enumeration(maxn)
+        return Av(list(reversed(B))).has_finitely_many_simples()
+    ask("Av.has_finitely_many_simples after enumeration(%d)" % maxn, after_enumeration)
+    if not lean:
+        ask("cli simple after enumeration", lambda: cli_simple(t0))
+        ask("Strategy after enumeration", lambda: FinitelyManySimplesStrategy(B).applies())
+    ask("class object created before the enumeration", cls.has_finitely_many_simples)
+
+    def after_clear():
+        Av.clear_cache()
+        return Av(list(B)).has_finitely_many_simples()
+    ask("Av.has_finitely_many_simples after clear_cache", after_clear)
+    ask("class object created before clear_cache", cls.has_finitely_many_simples)
+    # the three entry points one after the other, in every order, each order from the state of a fresh process
+    for order in ([ORDERS[bi % 6]] if tier_quick else [ORDERS[bi % 6], ORDERS[(bi + 3) % 6]] if quick else ORDERS):
+        as_fresh_process()
+        for k, e in enumerate(order + ("utility",)):
+            ask("order %s: %s (call %d)" % (" > ".join(order), e, k + 1), lambda: ENTRY[e](B, t0))
+    # the special-families part on its own
+    S = [("has_finite_special_simples", lambda: PinWords.has_finite_special_simples(list(B))),
+         ("has_finite_special_simples(reversed, frozenset)", lambda: PinWords.has_finite_special_simples(frozenset(reversed(B)))),
+         ("has_finite_special_simples(asked again, tuple)", lambda: PinWords.has_finite_special_simples(tuple(B)))]
+    special = [(name,) + util.call(th) for name, th in S]
+    return Q, special
+
+
+def ask_worker(args):
+    seed, b, bi, quick, maxn, sup = args
+    os.chdir(tempfile.mkdtemp(prefix="c16-worker-", dir=os.getcwd()))
+    t0 = time.time()
+    return ask_all(None, random.Random(seed), b, bi, quick, maxn, sup) + (round(time.time() - t0, 1),)
+
+
 def run(ctx):
     quick = ctx.tier == "quick"
     rnd = util.rng(ctx, 16)
@@ -82,29 +275,73 @@ def run(ctx):
     jobs = [("LibSanity_Simples", util.cfg(init="Init", next_="Next"), {"workers": 2, "timeout": 1800})]
     per = 2
     chunks = [bl[i:i + per] for i in range(0, len(bl), per)]
+    sups = {tuple(sorted(b)): supersets(rnd, b) for b in bl}       # for the non-minimal presentations (checked by TLC: NonMinimalSame)
+    tla_set = lambda ps: "{" + ", ".join(tlc.tla(list(p)) for p in ps) + "}"
     for ch in chunks:
-        inp = "{" + ", ".join("{" + ", ".join(tlc.tla(list(p)) for p in b) + "}" for b in ch) + "}"
-        mod = util.mc_module("MC_C16", "C16_Simples", {"InputsDef": inp})
-        c = util.cfg(init="Init", next_="Stutter", invariants=["FamiliesGiveSimples", "SymmetryInvariant", "EmitState"],
-                     constants={"Inputs": ("<-", "InputsDef"), "MaxN": maxn})
+        inp = "{" + ", ".join(tla_set(b) for b in ch) + "}"
+        ext = " @@ ".join("(%s :> %s)" % (tla_set(b), tla_set(sups[tuple(sorted(b))])) for b in ch)
+        mod = util.mc_module("MC_C16", "C16_Simples", {"InputsDef": inp, "ExtrasDef": ext})
+        c = util.cfg(init="Init", next_="Stutter", invariants=["FamiliesGiveSimples", "SymmetryInvariant", "NonMinimalSame", "EmitState"],
+                     constants={"Inputs": ("<-", "InputsDef"), "MaxN": maxn, "Extras": ("<-", "ExtrasDef")})
         jobs.append(("MC_C16", c, {"files": {"MC_C16.tla": mod}, "timeout": 3000}))
-    pin_jobs = [pin_verdict_jobs(b) for b in bl]
-    results = tlc.run_many(jobs + pin_jobs, parallel=16)
+    cold_bases = [b for b in ([(1, 3, 0, 2), (2, 0, 3, 1), (0, 1, 2, 3)], [(0, 1, 2, 3)], [(0, 2, 1), (1, 2, 0)]) if b in bl][:2 if quick else 3]
+    cold = [(b, cold_sessions(b)) for b in cold_bases]
+    pool = concurrent.futures.ThreadPoolExecutor(max_workers=16)
+    try:
+        t0 = time.time()
+        futs = [pool.submit(tlc.run_tlc, j[0], j[1], **j[2]) for j in jobs]
+        pin_futs = []
+        for b in bl:
+            j = pin_verdict_jobs(b)
+            pin_futs.append(pool.submit(tlc.run_tlc, j[0], j[1], **j[2]))
+        # the questions of one basis are one history in one process; the bases are spread over a few worker processes
+        # (each with its own database directory), several bases after one another in each
+        observed = {}
+        args = [(ctx.seed * 7919 + bi, b, bi, quick, maxn, sups[tuple(sorted(b))]) for bi, b in enumerate(bl)]
+        with concurrent.futures.ProcessPoolExecutor(max_workers=5 if quick else 10, mp_context=multiprocessing.get_context("spawn")) as procs:
+            slowest = []
+            for b, res in zip(bl, procs.map(ask_worker, args, chunksize=1)):
+                observed[tuple(sorted(b))] = res[:2]
+                slowest.append((res[2], len(res[0]), b))
+            ctx.note("slowest_bases_seconds_questions", sorted(slowest, reverse=True)[:4])
+        t_ask = time.time() - t0
+        results = [f.result() for f in futs]
+        pin_results = [f.result() for f in pin_futs]
+        ctx.note("phase_seconds", {"asking the real code (TLC runs side by side)": round(t_ask, 1), "waiting for TLC": round(time.time() - t0 - t_ask, 1)})
+    finally:
+        pool.shutdown(wait=False)
     ctx.add_tlc(results[0], "LibSanity_Simples")
     recs = {}
-    for r in results[1:len(jobs)]:
+    for r in results[1:]:
         ctx.add_tlc(r, "special families and simples by enumeration")
         for rec in r.records:
             recs[tuple(sorted(map(tuple, rec["basis"])))] = rec
     pin = {}
-    for b, r in zip(bl, results[len(jobs):]):
+    for b, r in zip(bl, pin_results):
         ctx.add_tlc(r, "pin-sequence verdict on the exported automaton")
         if r.violated:
             raise tlc.MachineryFailure("C16: the exported automaton of %s disagrees with the pin semantics (see C15)" % b)
         pin[tuple(sorted(b))] = [x for x in r.records if "finite" in x][0]["finite"]
     if len(recs) != len(bl):
         raise tlc.MachineryFailure("C16: %d records for %d bases" % (len(recs), len(bl)))
-    ninf = 0
+    # the cold processes: one per order of the entry points
+    for b, sessions in cold:
+        key = tuple(sorted(b))
+        extra = []
+        for order, proc in sessions:
+            try:
+                out, err = proc.communicate(timeout=1500)
+            except subprocess.TimeoutExpired as ex:
+                proc.kill()
+                raise tlc.MachineryFailure("C16: cold process timed out") from ex
+            if proc.returncode != 0:
+                extra.append(("cold process, order %s" % " > ".join(order), "raise", (err.strip().splitlines() or ["failed"])[-1], {}))
+                continue
+            for k, (e, st, got) in enumerate(json.loads(out)):
+                extra.append(("cold process, order %s: %s (call %d)" % (" > ".join(order), e, k + 1), st, got, {}))
+        observed[key] = (observed[key][0] + extra, observed[key][1])
+    ninf = nq = 0
+    oneshot = []
     for b in bl:
         key = tuple(sorted(b))
         rec = recs[key]
@@ -114,43 +351,22 @@ def run(ctx):
         gap = any(simples[i] == 0 and simples[i + 1] == 0 for i in range(len(simples) - 1))
         base = {"kind": "basis", "basis": [list(p) for p in b]}
         ctx.case(key, nontrivial=len(b) >= 1 and max(map(len, b)) >= 3)
-        B = [Perm(p) for p in b]
-        queries = [("PinWords.has_finite_simples", lambda X=B: PinWords.has_finite_simples(list(X)))]
-        queries.append(("has_finite_simples(reversed order)", lambda X=B: PinWords.has_finite_simples(list(reversed(X)))))
-        queries.append(("has_finite_simples(check_all)", lambda X=B: PinWords.has_finite_simples(list(X), check_all=True)))
-        queries.append(("Av.has_finitely_many_simples", lambda X=B: Av(list(X)).has_finitely_many_simples()))
-        queries.append(("FinitelyManySimplesStrategy", lambda X=B: FinitelyManySimplesStrategy(X).applies()))
-        queries.append(("cli simple", lambda X=b: cli_simple("_".join("".join(str(v) for v in p) for p in X))))
-        # a non-minimal presentation of the same class
-        big = None
-        for cand in util.perms_of(max(map(len, b)) + 1):
-            if contains(cand, b[0]):
-                big = cand
-                break
-        if big is not None:
-            queries.append(("has_finite_simples(non-minimal basis)", lambda X=B, g=big: PinWords.has_finite_simples(list(X) + [Perm(g)])))
-            queries.append(("Strategy(non-minimal basis)", lambda X=B, g=big: FinitelyManySimplesStrategy(list(X) + [Perm(g)]).applies()))
-        for sym in rec["syms"][: (3 if quick else 8)]:
-            queries.append(("has_finite_simples(symmetric image)", lambda S=sym: PinWords.has_finite_simples([Perm(p) for p in S])))
-        # the same questions again after the class has been enumerated in this process (levels cached on the shared
-        # class object), and on a class object created after clear_cache: the verdict depends only on the class
-        def after_enumeration(X=B, n=maxn):
-            Av(list(X)).enumeration(n)
-            return Av(list(reversed(X))).has_finitely_many_simples()
-        queries.append(("Av.has_finitely_many_simples after enumeration(%d)" % maxn, after_enumeration))
-        queries.append(("cli simple after enumeration", lambda X=b: cli_simple("_".join("".join(str(v) for v in p) for p in X))))
-        queries.append(("Strategy after enumeration", lambda X=B: FinitelyManySimplesStrategy(X).applies()))
-
-        def after_clear(X=B):
-            Av.clear_cache()
-            return Av(list(X)).has_finitely_many_simples()
-        queries.append(("Av.has_finitely_many_simples after clear_cache", after_clear))
-        special_real = PinWords.has_finite_special_simples(list(B))
-        if special_real != rec["special"]:
-            ctx.violation(dict(base, entry="has_finite_special_simples"), "SpecialFamilies", rec["special"], special_real)
-        for name, q in queries:
-            st, got = util.call(q)
+        syms = {frozenset(tuple(p) for p in S) for S in rec["syms"]}
+        queries, special = observed[key]
+        for name, st, got in special:
+            if st == "raise" or got != rec["special"]:
+                ctx.violation(dict(base, entry=name), "SpecialFamilies", rec["special"], got)
+        for name, st, got, flags in queries:
             case = dict(base, entry=name)
+            nq += 1
+            ctx.case()
+            if "image" in flags and flags["image"] not in syms:
+                ctx.drift("basis %s: %s is not an image the specification lists (property C04, not judged here)" % (b, name))
+                continue
+            if flags.get("drift_only"):
+                if st == "raise" or got != spec_finite:
+                    oneshot.append((b, got, spec_finite))
+                continue
             if st == "raise":
                 ctx.violation(case, "NoException", spec_finite, got)
                 continue
@@ -162,16 +378,24 @@ def run(ctx):
                 ctx.violation(case, "VerdictDependsOnlyOnClass", spec_finite, got)
         if len(ctx.samples) < 3:
             ctx.sample({"basis": b, "special_finite": rec["special"], "pin_finite": pin[key], "simples_4_to_%d" % maxn: simples})
+    if oneshot:
+        ctx.drift("PinWords.has_finite_simples(one-shot generator) differs from the class's verdict on %d of %d bases, e.g. %s answers %s, "
+                  "verdict %s (container kinds are not part of C16; not judged)" % ((len(oneshot), len(bl)) + oneshot[0]))
     if ninf == 0 or ninf == len(bl):
         raise tlc.MachineryFailure("C16: vacuous basis list (all verdicts equal)")
     ctx.exhaustive = True
     ctx.traces += len(bl)
     ctx.note("bases", len(bl))
+    ctx.note("questions", nq)
     ctx.note("infinite_verdicts", ninf)
     ctx.rule = ("per basis: special-family verdict by explicit families (TLC), simples per length by enumeration (TLC), pin verdict "
-                "on the exported automaton (TLC); the real verdict through six entry points, reversed order, a non-minimal "
-                "presentation and symmetric images is judged against them")
+                "on the exported automaton (TLC); the real verdict through four entry points, reversed order, several non-minimal "
+                "presentations, symmetric images, other containers and argument forms (frozenset, set, tuple, Basis, generators for the "
+                "constructors, 1-based text), the same objects asked twice, after enumeration and clear_cache (objects created before and "
+                "after), the three entry points in every order from the state of a fresh process (and in cold processes for %d bases) "
+                "is judged against them" % len(cold))
     ctx.assumptions.append("'arbitrarily long' is decided through the chain argument (member of length 2|b|+2) and the pin part through the automaton verdict validated up to the C15 word bound")
+    ctx.assumptions.append("a one-shot generator handed directly to PinWords.has_finite_simples is reported as drift only: C16 quantifies over classes and entry points, not over container kinds")
 
 
 def replay(ctx, path):
